@@ -1723,7 +1723,7 @@ func (h *Hub) processRoom(sess Session, message *ClientMessage) {
 
 		// TODO(jojo): Validate response
 
-		if message.Room.SessionId != "" {
+		if message.Room.SessionId != "" && message.Room.SessionId != session.RoomSessionId() {
 			// There can only be one connection per Nextcloud Talk session,
 			// disconnect any other connections without sending a "leave" event.
 			ctx, cancel := context.WithTimeout(session.Context(), time.Second)
